@@ -701,6 +701,51 @@ func c07Isolation(c *Ctx) {
 			}
 		}
 	}
+	// (5) what a router hands out is the caller's to keep: overwriting the method lists returned by one router's
+	// Routes(), or by Node().Methods() inside one of its handlers, changes nothing for another router
+	{
+		envA, envB := mon.NewEnv(), mon.NewEnv()
+		ra := envA.NewRouter("scribbled")
+		ra.Handle("/a/{id}", envA.NewHnd(mon.KRoute, "/a/{id}"), nil, "GET", "POST")
+		ra.Handle("/p", envA.NewHnd(mon.KRoute, "/p"), nil, "PUT")
+		envA.OnCallRoute = func(rt types.Route, _ *mon.Hnd) {
+			if n := rt.Node(); n != nil {
+				ms := n.Methods()
+				for i := range ms {
+					ms[i] = "SCRIBBLED-BY-HANDLER"
+				}
+			}
+		}
+		mon.Do(ra, mon.Req{Method: "GET", Path: "/a/7"})
+		mon.Do(ra, mon.Req{Method: "PUT", Path: "/p"})
+		for _, ms := range ra.Routes() {
+			for i := range ms {
+				ms[i] = "SCRIBBLED-BY-CALLER"
+			}
+		}
+		rb := envB.NewRouter("untouched", mux.WithCORS([]string{"*"}, nil, nil, 0, false))
+		rb.Handle("/b/{id}", envB.NewHnd(mon.KRoute, "/b/{id}"), nil, "GET", "POST")
+		rb.Handle("/q", envB.NewHnd(mon.KRoute, "/q"), nil, "PUT")
+		c.Eval()
+		routes := rb.Routes()
+		if got := strings.Join(mon.SortedCopy(routes["/b/{id}"]), ","); got != "GET,HEAD,OPTIONS,POST" {
+			bad(fmt.Sprintf("after the lists returned by another router's Routes()/Node().Methods() were overwritten by their caller, a fresh router lists %q for its route registered with GET, POST", got), nil)
+			return
+		}
+		if got := strings.Join(mon.SortedCopy(routes["/q"]), ","); got != "OPTIONS,PUT" {
+			bad(fmt.Sprintf("after the lists returned by another router were overwritten by their caller, a fresh router lists %q for its route registered with PUT", got), nil)
+			return
+		}
+		o := mon.Do(rb, mon.Req{Method: "OPTIONS", Path: "/b/7", Header: map[string]string{"Origin": "https://x.example", "Access-Control-Request-Method": "POST"}})
+		if o.Header.Get("Access-Control-Allow-Origin") != "*" || strings.Join(mon.AllowSet(o.Header.Get("Access-Control-Allow-Methods")), ",") != "GET,HEAD,OPTIONS,POST" {
+			bad(fmt.Sprintf("after the lists returned by another router were overwritten by their caller, a fresh router answers a preflight for a served method with Allow-Origin %q, Allow-Methods %q", o.Header.Get("Access-Control-Allow-Origin"), o.Header.Get("Access-Control-Allow-Methods")), nil)
+			return
+		}
+		if got := strings.Join(mon.SortedCopy(o.NodeMethods), ","); got != "GET,HEAD,OPTIONS,POST" {
+			bad(fmt.Sprintf("Node().Methods() of a fresh router's route is %q after another router's lists were overwritten by their caller", got), nil)
+			return
+		}
+	}
 	c.Class("isolation_battery")
 }
 
